@@ -913,6 +913,66 @@ fn forced_merge_fault_case(case: u64, rng: &mut Rng, rep: &mut Report) {
     }
 }
 
+/// A read of a source segment file fails while a merge runs (in-process): the merge has to fail
+/// or to absorb the fault; in both cases the index must show exactly the committed state - a
+/// merged segment built from a short read must never be published.
+fn merge_read_fault_case(case: u64, rng: &mut Rng, rep: &mut Report) {
+    let cfg = ExecCfg { threads: 1, merge_policy: false, sort: None, budget_per_thread: 15_000_000 };
+    let mon = MonDir::new(MonCfg { monitors: true, ..Default::default() });
+    let mut ex = match Exec::create(Box::new(mon.clone()), cfg, Some(mon.clone())) {
+        Ok(e) => e,
+        Err(e) => {
+            rep.violation("api-error:create", json!(e));
+            return;
+        }
+    };
+    rep.eval();
+    let mut g = HistGen::new();
+    for _ in 0..rng.urange(2, 4) {
+        for _ in 0..rng.urange(3, 40) {
+            ex.step(&Op::Add(g.doc(rng, 3)));
+        }
+        ex.step(&Op::Commit);
+    }
+    if rng.bool() {
+        // deletes in the sources select the document-by-document store merge
+        ex.step(&Op::DeleteTerm(Pred::Grp(rng.below(3))));
+        ex.step(&Op::Commit);
+    }
+    let ids = ex.index.searchable_segment_ids().unwrap_or_default();
+    if ids.len() < 2 {
+        return;
+    }
+    let fkind = *rng.pick(&["store", "store", "store", "idx", "pos", "term", "fast", "fieldnorm", "del"]);
+    let kind = if rng.chance(1, 5) { OpKind::OpenRead } else { OpKind::ReadBytes };
+    let nth = rng.below(if kind == OpKind::OpenRead { 3 } else { 12 });
+    mon.add_fault(OpPred::kind(kind).role("merge").fkind(fkind), nth, FaultMode::Once, std::io::ErrorKind::Other);
+    let merge_res = ex.writer.as_mut().unwrap().merge(&ids).wait();
+    let fired = mon.faults_fired();
+    mon.clear_faults();
+    rep.count(if fired > 0 { "merge_read_fault:fired" } else { "merge_read_fault:not_reached" }, 1);
+    rep.count(if merge_res.is_ok() { "merge_read_fault:merge_ok" } else { "merge_read_fault:merge_err" }, 1);
+    let mut errs = ex.check_committed(true);
+    ex.step(&Op::Add(g.doc(rng, 3)));
+    ex.step(&Op::Commit);
+    errs.extend(ex.check_committed(true));
+    for (sig, d) in ex.problems.drain(..) {
+        if !is_known("C02", &sig) {
+            errs.push((format!("live:{sig}"), d));
+        }
+    }
+    for (sig, d) in errs {
+        rep.violation(
+            format!("merge-read-fault:{sig}"),
+            json!({"case": case, "fault": format!("merge:{}:{fkind}#{nth}", kind.name()), "fault_fired": fired,
+                   "merge_returned_ok": merge_res.is_ok(), "detail": d}),
+        );
+    }
+    if fired > 0 {
+        rep.nontrivial(format!("merge-read-fault:{}:{fkind}:{}", kind.name(), if merge_res.is_ok() { "absorbed" } else { "merge-failed" }));
+    }
+}
+
 fn main() {
     // child mode first
     let argv: Vec<String> = std::env::args().collect();
@@ -940,10 +1000,11 @@ fn main() {
     }));
     rep.merge(run_cases(&ctx, "forced-merge-fault", ctx.scale(60, 3000) as u64, forced_merge_fault_case));
     rep.merge(run_cases(&ctx, "bulk", ctx.scale(32, 600) as u64, bulk_case));
+    rep.merge(run_cases(&ctx, "merge-read-fault", ctx.scale(80, 3000) as u64, merge_read_fault_case));
     simple_finish(
         &ctx,
         rep,
-        "case = one fault scenario run in its own child process: a generated history (adds, deletes, commits, merges, GC, rollback, reopen; 1-3 indexing threads) with one injected storage fault selected from the fault-free reference run of the same history (thread role x operation kind x file kind x occurrence; once / permanent from there / storage dead). Checked: a failed commit took effect completely or not at all; every commit that returned Ok is recoverable from the durable image taken at its return; after faults stop storage holds exactly the last successful commit, a new writer can be created, add and commit; no abort, no hang (watchdog + CPU-progress test + gdb stacks). Stream `bulk`: a worker dies of a fault while its segment is cut mid-transaction and the client keeps adding more documents than the bounded pipeline holds: every call returns, the error surfaces at the latest at commit. Non-trivial = the fault actually fired; distinct = (role, op, file kind, mode, API call that surfaced it).",
+        "case = one fault scenario run in its own child process: a generated history (adds, deletes, commits, merges, GC, rollback, reopen; 1-3 indexing threads) with one injected storage fault selected from the fault-free reference run of the same history (thread role x operation kind x file kind x occurrence; once / permanent from there / storage dead). Checked: a failed commit took effect completely or not at all; every commit that returned Ok is recoverable from the durable image taken at its return; after faults stop storage holds exactly the last successful commit, a new writer can be created, add and commit; no abort, no hang (watchdog + CPU-progress test + gdb stacks). Stream `merge-read-fault`: one read of a source file fails inside a merge; the merge fails or absorbs it, the published content stays the committed state. Stream `bulk`: a worker dies of a fault while its segment is cut mid-transaction and the client keeps adding more documents than the bounded pipeline holds: every call returns, the error surfaces at the latest at commit. Non-trivial = the fault actually fired; distinct = (role, op, file kind, mode, API call that surfaced it).",
         ctx.scale(40, 200),
         &[
             "hang = watchdog (60 s, >100x the fault-free runtime) and no CPU progress over 1.5 s; anything else after the watchdog is inconclusive",
